@@ -88,6 +88,8 @@ def harness(E):
     h.prelude(P.get("prelude"))
     first_kind = "links" if P.get("prelude") else None
     for i in range(P["n"]):
+        if i > 0 or P.get("prelude"):
+            battery(E, t, h)       # query, write, query again
         kind, info = h.step(i)
         if i == 0 and first_kind is None:
             first_kind = kind
